@@ -14,7 +14,7 @@ UNIT = dict(
             "roaring::RoaringBitmap -> union of <=3 disjoint u32 intervals (exact on the whole u32 domain)",
             "deepsize::DeepSizeOf impl removed (memory accounting only)"],
     bounds={"deletions": "Bitmap variant: arbitrary interval sets of complexity <=2 over the whole u32 domain; Set variant: <=3 arbitrary u32 values",
-            "offset mapper": "logical offsets with offset + |deletions| < 2^B: B=6 one lookup and B=4 two successive lookups (quick); B=10 one lookup and B=6 two lookups (thorough); the full-width B=32 query is kept but did not finish in 3000 s",
+            "offset mapper": "logical offsets with offset + |deletions| < 2^B: B=6 one lookup and B=4 two successive lookups (quick); B=8 one lookup and B=6 two lookups (thorough; B=10 one lookup did not finish in 1500 s); the full-width B=32 query is kept but did not finish in 3000 s",
             "unwind": "binary search B+3 iterations, unwinding assertion on"},
     outside=["build_predicate (Arrow)", "iter()/into_sorted_iter() over Box<dyn Iterator>", "fragments with 2^32 rows"],
 )
